@@ -24,6 +24,25 @@ use crate::{
 
 mod signed_packets;
 
+/// Verification hooks: the storage (de)serialisation of the packet store.
+#[cfg(iroh_verif)]
+pub(crate) mod verif_hooks {
+    use iroh_dns::pkarr::SignedPacket;
+    use n0_error::Result;
+
+    use super::signed_packets::verif_hooks as inner;
+
+    /// The storage serialisation used by the upsert path.
+    pub(crate) fn serialize_packet(packet: &SignedPacket) -> Vec<u8> {
+        inner::serialize_packet(packet)
+    }
+
+    /// The storage deserialisation used by every read of the packets table.
+    pub(crate) fn deserialize_packet(data: &[u8]) -> Result<SignedPacket> {
+        inner::deserialize_packet(data)
+    }
+}
+
 /// Cache up to 1 million pkarr zones by default
 const DEFAULT_CACHE_CAPACITY: usize = 1024 * 1024;
 /// Default TTL for DHT cache entries
@@ -65,6 +84,25 @@ impl ZoneStore {
         Ok(Self::new(packet_store, metrics))
     }
 
+    /// Create a zone store on top of a caller-supplied redb database (verification hook).
+    #[cfg(iroh_verif)]
+    pub(crate) fn verif_from_db(
+        db: redb::Database,
+        options: Options,
+        metrics: Arc<Metrics>,
+    ) -> Result<Self> {
+        let packet_store = SignedPacketStore::open(db, options, metrics.clone())?;
+        Ok(Self::new(packet_store, metrics))
+    }
+
+    /// Timestamp of the zone cached for `pubkey` (verification hook): `None` when the cache
+    /// lock is held, `Some(None)` when no zone is cached.
+    #[cfg(iroh_verif)]
+    pub(crate) fn verif_cache_peek(&self, pubkey: &PublicKeyBytes) -> Option<Option<u64>> {
+        let cache = self.cache.try_lock().ok()?;
+        Some(cache.cache.peek(pubkey).map(|z| z.timestamp.as_micros()))
+    }
+
     /// Configure a mainline DHT client for resolution of packets as a fallback.
     ///
     /// This will be used only as a fallback if there is no local info available.
@@ -104,6 +142,8 @@ impl ZoneStore {
     ) -> Result<Option<Arc<RecordSet>>> {
         trace!("store resolve");
 
+        #[cfg(iroh_verif)]
+        crate::verif_hooks::pause("resolve:cache-check").await;
         // Check cache first (short lock scope)
         {
             let mut cache = self.cache.lock().await;
@@ -116,9 +156,13 @@ impl ZoneStore {
             }
         }
 
+        #[cfg(iroh_verif)]
+        crate::verif_hooks::pause("resolve:store-get").await;
         // Check persistent store
         if let Some(packet) = self.store.get(pubkey).await? {
             trace!(packet_timestamp = ?packet.timestamp(), "store hit");
+            #[cfg(iroh_verif)]
+            crate::verif_hooks::pause("resolve:cache-insert").await;
             let mut cache = self.cache.lock().await;
             let result = cache.insert_and_resolve(&packet, name, record_type);
             return match result {
@@ -180,9 +224,15 @@ impl ZoneStore {
         _source: PacketSource,
     ) -> Result<bool> {
         let pubkey = PublicKeyBytes::from_signed_packet(&signed_packet);
+        #[cfg(iroh_verif)]
+        crate::verif_hooks::pause("insert:upsert").await;
         if self.store.upsert(signed_packet).await? {
             self.metrics.pkarr_publish_update.inc();
+            #[cfg(iroh_verif)]
+            crate::verif_hooks::pause("insert:cache-remove").await;
             self.cache.lock().await.remove(&pubkey);
+            #[cfg(iroh_verif)]
+            crate::verif_hooks::pause("insert:ack").await;
             Ok(true)
         } else {
             self.metrics.pkarr_publish_noop.inc();
